@@ -72,4 +72,12 @@ theorem InvB2.janitor {s s' : State} (h : InvB2 s)
   obtain ⟨e1pq, e1hs, e1fin, e2, e3, e4, q, r2, r2', v2⟩ := h
   cases hs <;> (constructor <;> grind)
 
+theorem InvB2.step {cfg : Cfg} {s s' : State} (hA : InvA cfg s) (h : InvB2 s)
+    (hs : Step cfg s s') : InvB2 s' := by
+  cases hs with
+  | main h' => exact h.main hA h'
+  | reader h' => exact h.reader h'
+  | hasher i h' => exact h.hasher h'
+  | janitor h' => exact h.janitor h'
+
 end Torf.Pipeline
